@@ -76,9 +76,13 @@ def check(ctx):
                 for n in ast.walk(h):
                     if isinstance(n, ast.Assign) and h.name in names_in(n.value):
                         kept.append(n)
+                    # handed to anything: a callback, a collection, a logger - whatever receives it can keep it, and with it the
+                    # traceback, the frames of the failed attempt and the argument values in them
+                    if isinstance(n, ast.Call) and any(h.name in names_in(a_) for a_ in list(n.args) + [k_.value for k_ in n.keywords]):
+                        kept.append(n)
             after_raises = [n for n in w.own_nodes() if isinstance(n, ast.Raise) and n.exc is not None and not any(inside(w.module, n, hh) for hh in hs)]
             ok = not kept and not after_raises
             ctx.ob("C16.G4", f"{w.short}/exception-not-retained", ok, loc(w, h),
                    "the retry wrapper does not keep the exception of a failed attempt" if ok else
-                   "the retry wrapper keeps the exception of a failed attempt in a local: exception -> traceback -> frame -> "
-                   "local forms a cycle that pins the call's arguments after a later attempt succeeded", head(h))
+                   "the retry wrapper keeps the exception of a failed attempt (in a local, or by handing it to a callback / collection): exception -> "
+                   "traceback -> frames of the attempt -> argument values stay reachable after a later attempt succeeded", head(h))
